@@ -21,6 +21,7 @@ def respOfScript (a : Json) : Resp :=
 
 def c19 (inp obs : Json) : Res :=
   if (obs.getObjVal? "setupError").toOption.isSome then { agree := false, specOk := false, why := s!"harness setup: {jstr obs "setupError"}" } else
+  if jbool obs "hang" then { agree := false, specOk := false, why := "the transport call never returned (an attempt blocks forever: the batch is not finished)" } else
   if (obs.getObjVal? "panic").toOption.isSome then { agree := false, specOk := false, why := s!"the transport panicked: {jstr obs "panic"}" } else
   let call := jstr inp "call"
   let cfg : Cfg := { appAgent := jstr inp "appAgent", gofedAgent := "", keyId := "https://a.example/users/alice#main-key" }
